@@ -2,8 +2,8 @@
 from checks import pfcp_common as pc
 
 MANIFEST = dict(
-    text='Kernel-checked for ALL histories of parsed messages, reports and timer events and all oracles: no step faults (no slice index out of range, no nil slot dereference), the world invariant is preserved, and a Heartbeat Request that is not a retransmission is answered in every state. PARTIAL: the byte->message step (go-pfcp message.Parse) and the IE accessors are third-party code, covered only by the correspondence / mutation stream (validation, not proof). Tie: differential run incl. every SEID class and missing/undecodable IEs; fatal-exit hook and heartbeat probe after every event.',
-    note="Partial: go-pfcp's parser and accessors and the gtp5g driver's IE decoding are outside the model. Known crash inside go-pfcp's OuterHeaderCreation accessor reached through the gtp5g driver is recorded as a finding (see known_findings.txt). ",
+    text='Kernel-checked for ALL histories of parsed messages, reports and timer events and all oracles: no step faults (no slice index out of range, no nil slot dereference), the world invariant is preserved, and a Heartbeat Request that is not a retransmission is answered in every state. PARTIAL: the byte->message step (go-pfcp message.Parse) and the IE accessors are third-party code, covered only by the correspondence / mutation stream (validation, not proof): structure-aware IE-tree mutation and a systematic sweep of every leaf IE (flag octets, inner length fields, tail length) through the model data plane AND the real gtp5g driver over the simulated kernel, heartbeat after every datagram, a session of another node must stay intact. Tie: differential run incl. every SEID class and missing/undecodable IEs; fatal-exit hook and heartbeat probe after every event.',
+    note="Partial: go-pfcp's parser and accessors and the gtp5g driver's IE decoding are outside the model. Panics inside go-pfcp accessors reached through the gtp5g driver (Outer Header Creation with spare bits, SDF Filter length overrun - found by the byte-level phase) used to exit the UPF; since fix 242a7e8 they cost one message (the datagrams are a regression corpus run first). What a handler had installed before such a panic stays (not modelled). ",
     technique='Coq no-fault theorem over all histories + differential run with fatal-exit hook and heartbeat liveness probe',
     design='4/C07')
 
